@@ -267,7 +267,7 @@ theorem getitem_sstep (x : Expr) (a b : Int) (hx : WF x) (hp : Plain x) :
       refine SPost_of_eq this ?_
       simp only [ideal]
       exact (slice_of_slice _ _ _ _ _ (by omega)).symm
-  · exact SPost_error _ _ _
+  · simp [Plain] at hp
   · simp [Plain] at hp
   · simp [Plain] at hp
   · exact ih.slicer x _ _ hx hp hpos (by omega)
